@@ -519,4 +519,45 @@ Proof.
   - exfalso. eapply scan_fuel_enough; [|exact Es]. lia.
 Qed.
 
+(** variant without the "every intact record replays" hypothesis: if the replay RETURNS NIL, then every
+    scheduled transaction was applied *)
+Lemma apply_sched_code0 : forall s,
+  r_code (apply_sched s) = 0%nat ->
+  forall k b, In (k, b) s -> exists n, In (tg_id_of b, n) (r_applied (apply_sched s)).
+Proof.
+  induction s as [|[k0 b0] r IH]; intros Hc k b Hin; [contradiction|].
+  cbn [WalScan.apply_sched] in *.
+  destruct (ParseTGData b0 root) as [[id wts]| |] eqn:Ep; cbn [r_code] in Hc; try discriminate.
+  destruct (_ || _); cbn [r_code r_applied] in *; [|discriminate].
+  destruct Hin as [Hin|Hin].
+  - inversion Hin; subst. exists (length wts). left. apply parse_id_is_key in Ep. rewrite Ep. reflexivity.
+  - destruct (IH Hc k b Hin) as (n & Hn). exists n. right. exact Hn.
+Qed.
+
+Theorem intact_framed_applied_code0 : forall bs pre p t body post,
+  frames bs = pre ++ EvTG p t body :: post ->
+  t <> 0 ->
+  NoDup (keys (frames bs)) ->
+  forallb (harmless t) post = true ->
+  r_code (replay_bytes bs) = 0%nat ->
+  exists n, In (t, n) (r_applied (replay_bytes bs)).
+Proof.
+  intros bs pre p t body post Hfr Ht Hnd Hh Hc0.
+  unfold WalScan.replay_bytes in *.
+  destruct (scan (S (length bs)) bs 0 [] []) as [m'| |c|] eqn:Es; cbn [r_code] in Hc0; try discriminate.
+  rewrite scan_run_evs in Es. fold (frames bs) in Es.
+  assert (Hid : t = tg_id_of body).
+  { assert (Hev : In (EvTG p t body) (frames bs)) by (rewrite Hfr; apply in_or_app; right; left; reflexivity).
+    apply events_intact in Hev as (q & d & _ & _ & _ & _ & _ & _ & E). exact E. }
+  assert (Hin : In (t, Some body) m').
+  { pose proof (events_prefix_continuing _ _ _ _ _ _ Hfr) as Hcn.
+    rewrite Hfr in Es. apply run_evs_through in Es as (m1 & seen1 & Es); [|exact Hcn].
+    cbn [run_evs] in Es. destruct (zmem t seen1); [discriminate|].
+    apply (run_evs_keeps post t body (mset t (Some body) m1) (t :: seen1) m'); [left; reflexivity | exact Ht | exact Hh | | exact Es].
+    rewrite Hfr in Hnd. unfold keys in Hnd. rewrite flat_map_app in Hnd. cbn [flat_map ev_key app] in Hnd.
+    apply NoDup_remove_2 in Hnd. intros X. apply Hnd. apply in_or_app. right. exact X. }
+  rewrite Hid. apply (apply_sched_code0 (schedule m') Hc0 t body).
+  apply (proj2 (schedule_In _ _ _)). exact Hin.
+Qed.
+
 End Facts.
